@@ -1732,13 +1732,13 @@ class BaseRange(TraitType):
 
             if isinstance(high, str):
                 self._high_name = high = "object." + high
-            else:
+            elif high is not None:
                 self._vtype = type(high)
             high = compile(str(high), "<string>", "eval")
 
             if isinstance(low, str):
                 self._low_name = low = "object." + low
-            else:
+            elif low is not None:
                 self._vtype = type(low)
             low = compile(str(low), "<string>", "eval")
 
@@ -1920,8 +1920,8 @@ class BaseRange(TraitType):
             low = eval(self._low)
             high = eval(self._high)
             low, high = (
-                self._typed_value(low, low, high),
-                self._typed_value(high, low, high),
+                None if low is None else self._typed_value(low, low, high),
+                None if high is None else self._typed_value(high, low, high),
             )
         else:
             low = self._low
